@@ -274,7 +274,7 @@ func (s *Session) Do(req string, onStop func(ops []FsOp)) (reply string, ops []F
 		if time.Now().After(deadline) {
 			return "", ops, false, fmt.Errorf("timeout waiting for the child")
 		}
-		time.Sleep(300 * time.Microsecond)
+		time.Sleep(time.Millisecond)
 	}
 }
 
